@@ -33,15 +33,15 @@ GRID_MAP = ["0", "1", "2", "3", "M"]
 
 
 def anchors():
-    from simfile.notes import group, count
+    from ..core import pick
 
-    return {
-        "group_notes": group.group_notes,
-        "count_grouped_notes": count.count_grouped_notes,
-        "count_steps": count.count_steps,
-        "count_mines": count.count_mines,
-        "_count_holds_or_rolls": count._count_holds_or_rolls,
-    }
+    return pick(
+        "simfile.notes.group:group_notes",
+        "simfile.notes.count:count_grouped_notes",
+        "simfile.notes.count:count_steps",
+        "simfile.notes.count:count_mines",
+        "simfile.notes.count:_count_holds_or_rolls",
+    )
 
 
 def option_sets():
